@@ -21,7 +21,7 @@ def glue_ok(a, b):
     return v
 
 
-STYLES = ('tight', 'normal', 'lines', 'wild')
+STYLES = ('tight', 'normal', 'lines', 'wild', 'spaced')
 
 
 def comment_text(rng, glyphs=True):
@@ -99,6 +99,11 @@ class Layout:
                 want_nl = rng.random() < 0.3
             else:
                 want_nl = False
+        if style == 'spaced':
+            # pair-directed mode: exactly one space between any two tokens (a line break only where required)
+            if prev is None or nxt is None:
+                return b''
+            return self.nl() if must_nl else b' '
         if want_nl:
             if style in ('wild', 'normal', 'lines') and rng.random() < (0.25 if style == 'wild' else 0.1):
                 parts.append(rng.choice((b' ', b'  ', b'\t', b'')))
@@ -175,7 +180,7 @@ class Layout:
             prev = raw
         # tail
         tail = []
-        if self.style != 'tight' and rng.random() < 0.2:
+        if self.style not in ('tight', 'spaced') and rng.random() < 0.2:
             tail.append(rng.choice((b' ', b'\t', b'  ')))
             if rng.random() < 0.6:
                 tail.append(line_comment(rng))
